@@ -1054,7 +1054,10 @@ class _Run:
             try:
                 try:
                     with param.parameterized.edit_constant(cls):
-                        if mode == 'touch' and has_inst and ci in self.mro[self.im[i]['c']]:
+                        if mode == 'touch' and has_inst and 'k' in self.visible(self.im[i]['c']) and \
+                                (ci in self.mro[self.im[i]['c']] or self.gov(self.im[i]['c'], 'k')[0] == self.gov(ci, 'k')[0]):
+                            # (an instance of the class, or of another class sharing the Parameter object - a base the constant
+                            # is inherited from, a sibling)
                             self.insts[i].param['k']
                             self.ensure_copy(i, 'k')
                         elif mode == 'cset':
@@ -1075,7 +1078,8 @@ class _Run:
                     if not self.classes[c2].param.objects(instance=False)['k'].constant:
                         self.viol('C14.flags', f"after edit_constant(K{ci}) ({mode}) the Parameter k of K{c2} is no longer constant")
             for j, o in enumerate(self.insts):
-                if 'k' in self.visible(self.im[j]['c']) and (ci in self.mro[self.im[j]['c']]):
+                if 'k' in self.visible(self.im[j]['c']) and (ci in self.mro[self.im[j]['c']] or
+                                                             self.gov(self.im[j]['c'], 'k')[0] == self.gov(ci, 'k')[0]):
                     try:
                         o.k = self.new_list()
                     except TypeError:
